@@ -579,7 +579,9 @@ class RunCrateProvenanceManager(ProvenanceManager, ABC):
                 for action_name, create_actions in (
                     self.create_action_map[wf_id].get(parent["@id"], {}).items()
                 ):
-                    if step_name.startswith(action_name):
+                    if step_name == action_name or step_name.startswith(
+                        posixpath.join(action_name, "")
+                    ):
                         for create_action in create_actions.get(tag, []):
                             if is_input and param["@id"] in [
                                 inp["@id"] for inp in parent.get("input", [])
